@@ -36,7 +36,7 @@ def one(d):
                     break
         return d, res
     finally:
-        subprocess.run("git -C /repo worktree remove --force %s; rm -rf %s /verif/.build/*-_tmp_sweepwt-%s" % (wt, wt, d), shell=True)
+        subprocess.run("git -C /repo worktree remove --force %s; rm -rf %s %s/.build/*-_tmp_sweepwt-%s" % (wt, wt, os.path.dirname(os.environ.get("SWEEP_CHECK", "/verif/check")), d), shell=True)
 todo = [d for d in sorted(os.listdir(root)) if os.path.exists(os.path.join(root, d, "patch.diff")) and (not only or d in only)]
 prev = {}
 sp = os.path.join(root, "SWEEP_%s%s.json" % (tier, os.environ.get("SWEEP_TAG", "")))
